@@ -197,6 +197,17 @@ func genC08(h *H) {
 		}
 		h.do("schnorr", "schnorr_pubkey_parse", hx(cat([]byte{2}, nr)))
 		h.do("schnorr", "schnorr_pubkey_parse", hx(cat([]byte{4}, x, y)))
+		if !h.once["c08-sweep"] {
+			// once per run: x (and y) swept around P digit by digit in 64-, 32- and 26-bit digits, deterministic
+			h.once["c08-sweep"] = true
+			for _, v := range append(append(chainSweep(curveP, 64, 4), chainSweep(curveP, 32, 8)...), chainSweep(curveP, 26, 10)...) {
+				for _, t := range []byte{2, 3} {
+					h.do("x-swept-around-p", "pubkey_parse", hx(cat([]byte{t}, be32(v))))
+				}
+				h.do("x-swept-around-p", "schnorr_pubkey_parse", hx(cat([]byte{2}, be32(v))))
+				h.do("y-swept-around-p", "pubkey_parse", hx(cat([]byte{4}, x, be32(v))))
+			}
+		}
 		// x >= P whose reduction x-P may or may not be an abscissa: every parser must refuse all of them
 		for _, ov := range h.overP() {
 			for _, t := range []byte{2, 3} {
